@@ -215,6 +215,12 @@ fixed("C14", "C14:copy_with_new_str-takes-formatting-of-empty-run", "6f5e65e",
        {"kind": "newstr", "fmt": [["ab", {"bold": True}], ["c", {"bold": True}]], "new": "x", "onto_empty": False,
         "stray_empty_run": [1, {"bg": 44}]}])
 
+fixed("C14", "C14:copy_with_new_atts-unvalidated", "ea415a2",
+      "copy_with_new_atts accepted unknown attribute names and bad colour values (KeyError at display time, ESC[redm for fg='red')",
+      [{"kind": "invalid", "args": [], "kwargs": {"colour": "red"}, "via": "copy_with_new_atts"},
+       {"kind": "invalid", "args": [], "kwargs": {"fg": 99}, "via": "copy_with_new_atts"},
+       {"kind": "lenient", "args": [], "kwargs": {"fg": "red"}, "meaning": {"fg": "red"}, "via": "copy_with_new_atts"}])
+
 known("C03", "C03:prefix-then-undecodable-byte",
       "get_key raises UnicodeDecodeError for a table-sequence prefix (e.g. ESC) followed by a byte >= 0x80 "
       "that does not decode: ESC + any 8-bit byte under ascii, ESC + a UTF-8 lead/continuation byte under utf-8",
